@@ -349,6 +349,11 @@ func cmdCheck(args []string) {
 		if fs.Trusted {
 			assumed = append(assumed, "trusted contract (not verified against body): "+shortKey(k))
 		}
+		for _, c := range fs.Ensures {
+			if c.Assumed {
+				assumed = append(assumed, "assumed postcondition (used at call sites, not proved): "+shortKey(k)+" ["+c.Label+"]")
+			}
+		}
 	}
 	for k := range w.db.IMeths {
 		assumed = append(assumed, "interface method contract (assumed at call sites): "+shortKey(k))
